@@ -767,6 +767,15 @@ def notify_unconditional(ctx):
                             continue
                         if not (path_ends(e.label[1] or "", "Result") and v == ("Ok",) and on_param):
                             extra[(e.src, e.dst)] = f"{'/'.join(v)} of {(e.label[1] or '').split('::')[-1]}"
+            # a decision both of whose outcomes lead to the notification does not condition it (e.g. how a log line is worded before the send)
+            by_src = {}
+            for (src, dst) in extra:
+                by_src.setdefault(src, set()).add(dst)
+            for src, dsts in by_src.items():
+                outs = {e.dst for e in cb.succ.get(src, ()) if cb.term(e.dst)["k"] != "unreachable"}
+                if outs and outs <= dsts:
+                    for dst in dsts:
+                        extra.pop((src, dst), None)
             ctx.check(not extra, f"{short(cb.name)}/only-relevance-guards", [site(cb, s[0])],
                       "the notification depends on a further decision (" + "; ".join(sorted(set(extra.values()))[:4]) + "): some relevant change can be swallowed", detail=f"{len(paths)} paths to the notification")
 
